@@ -1207,7 +1207,7 @@ func c17WriteClass(desc string) string {
 // ---------------------------------------------------------------------------------------------
 
 func TestVerifC17Reconcile(t *testing.T) {
-	kit.Run(t, kit.Config{Property: "C17", Unit: "reconcile", Quick: 600, Thorough: 24000,
+	kit.Run(t, kit.Config{Property: "C17", Unit: "reconcile", Quick: 600, Thorough: 20000,
 		Rule: "1-2 reservation-first jobs (TTL unset/15s/1h; 12% pending-pod mode; 25% with a scripted preemption interpreter), one fault-free history of 8-30 steps generated adaptively from {reconcile, reservation -> pending+unschedulable / scheduled(same|other node) / unschedulable / expired / deleted / bound(this|other pod), pod deleted / replaced by same name new UID (pending|old node|reservation node|third node) / scheduled, clock +5s / past TTL, controller restart}, ending with 2 reconciles per job; then the same script is re-executed with every single write k=1..n failing (nothing applied) and with every single write k applied-but-error (lost response); evaluations = executed histories (1+2n per case); non-trivial = the fault-free history evicted, reached a terminal phase and reconciled after it; distinct = (jobs, TTL, mode, final phase/reason/status, #evict calls, final reservation state, fault kind, class of the failed write, fault right after evict, reconciled after terminal)"},
 		func(c *kit.Case) {
 			r := c.R
